@@ -12,7 +12,9 @@ META = {
             "entry lengths): compute_vjp_single/multi return exactly sum_m sum_i dy[m][i]*J[m][p][i] on every code path "
             "(array form, stacked tuple, both einsum paths, the except-fallback), compute_jvp_single/multi return "
             "sum_p J[m][p][i]*tangent[p]; multi = sum of singles; the all-zero-dy shortcut of vjp() equals what the "
-            "contraction would return (with and without shot vectors); batch processing keeps per-tape grouping for "
+            "contraction would return (theorem for tapes without a shot vector; with a shot vector by the tie only); the "
+            "zero-tangent shortcut of jvp() equals the contraction path with and without a shot vector (theorems for "
+            "single-measurement tapes of any dimension; several measurements by the tie); batch processing keeps per-tape grouping for "
             "'append' and concatenates in tape order for 'extend', each tape receiving exactly its slice of the results. "
             "The model's executable definitions are evaluated inside Coq on the same random shapes/Jacobians/(co)tangents "
             "(incl. all-zero, partially zero, malformed) as the real functions and all results are compared exactly.",
@@ -25,8 +27,7 @@ META = {
             "tensor-valued (rank>0) trainable parameters in compute_jvp_single, callable reductions, numpy's silent "
             "broadcasting of a length-1 axis in the einsum path when len(dy)=1 != len(jac), and Jacobian entries whose "
             "rank differs from the dy entries (those inputs are not generated). "
-            "Known quirks transcribed in the model: jvp() zero-tangent shortcut ignores the shot vector (refuted clause), "
-            "batch_jvp(reduction='extend') raises TypeError on a 0-d JVP.",
+            "Known quirk transcribed in the model: batch_jvp(reduction='extend') raises TypeError on a 0-d JVP.",
     "assumptions": ["inputs are plain numpy arrays / tuples of them (autograd interface, default num=None)",
                     "entries of dy/jac are dyadic rationals with small numerators so float arithmetic is exact"],
     "trusted": ["hand-written model coq/Num/JacProdModel.v tied to /repo by correspondence only",
@@ -294,8 +295,8 @@ def iter_enc(v):
 
 def expect_batch(c):
     """the property's own statement: per tape the explicit contraction (einsum of the dense Jacobian), grouped
-    per tape for append, concatenated in tape order for extend.  Returns (expected, tolerated_error, shot_finding)"""
-    out, start, finding, scalar_extend = [], 0, False, False
+    per tape for append, concatenated in tape order for extend.  Returns (expected, tolerated_error)"""
+    out, start, scalar_extend = [], 0, False
     for t in c["tapes"]:
         k, M, part, Ds = t["k"], len(t["meas"]), t["part"], t["Ds"]
         active = k > 0 and not t["zero"]
@@ -304,7 +305,7 @@ def expect_batch(c):
             start += t["glen"]
         w = weight(sl)
         if t.get("mal"):
-            return None, True, False
+            return None, True
         if c["op"] == "bv":
             if k == 0:
                 v = None
@@ -318,8 +319,6 @@ def expect_batch(c):
                     es = [entry(kd(kn), [w * x for x in contract_jvp(D, m)]) for m, kn in enumerate(D["kinds"])]
                 return es[0] if M == 1 else tup(es)
             v = tup(one(D) for D in Ds) if part else one(Ds[0])
-            if part and k > 0 and t["zero"]:
-                finding = True
         if v is None:
             if not c["ext"]:
                 out.append(None)
@@ -332,7 +331,7 @@ def expect_batch(c):
             out.extend(it)
         else:
             out.append(v)
-    return tup(out), scalar_extend, finding
+    return tup(out), scalar_extend
 
 
 def gen_cj(rng):
@@ -391,7 +390,7 @@ def run(ctx):
     def o_res(c, o):
         return o if o == "ERR" or c["op"] not in ("bv", "bj") else o["r"]
     terms = [f"({g_case(c)}, {g_res(o_res(c, o))})" for c, o in zip(cases, obs)]
-    bad = ctx.coq_eval_cases("cases", "From PLV Require Import Num.JacProdModel.", terms, "check_case")
+    bad = ctx.coq_eval_cases("cases", "From PLV Require Import Num.JacProdModel.", terms, "check_case", chunk=175)
 
     hist = {"vs": 0, "vm": 0, "js": 0, "jm": 0, "bv": 0, "bj": 0, "errors": 0, "malformed": 0, "no_trainable_or_None": 0,
             "zero_dy_or_tangent": 0, "partially_zero": 0, "vm_single_param": 0, "vm_einsum_scalar": 0,
@@ -408,18 +407,9 @@ def run(ctx):
             hist["batch_partitioned_tapes"] += sum(t["part"] for t in c["tapes"])
             hist["batch_shortcut_tapes"] += sum(t["k"] > 0 and t["zero"] for t in c["tapes"])
             hist["batch_none_tapes"] += sum(t["k"] == 0 for t in c["tapes"])
-            exp, tolerated, finding = expect_batch(c)
+            exp, tolerated = expect_batch(c)
             if len(c["tapes"]) > 1:
                 distinct.add(key)
-            if finding and c["op"] == "bj":
-                # jvp(): an all-zero tangent on a tape with a shot vector must still give one entry per shot copy
-                if o == "ERR" or o["r"] != exp:
-                    ctx.violation("finding:jvp_zero_tangent_shortcut_ignores_shot_vector",
-                                  {"case": strip(c), "observed": o, "expected": exp},
-                                  what="jvp()/batch_jvp with an all-zero tangent on a tape with a shot vector returns a "
-                                       "single zero result instead of one per shot copy (shape differs from the "
-                                       "contraction of the explicit Jacobian)")
-                continue
             if tolerated:
                 continue
             hist["direct_oracle_checked"] += 1
